@@ -3,10 +3,8 @@
 set -e
 cd "$(dirname "$0")/.."
 export GOFLAGS=-mod=mod GOPROXY=off GOSUMDB=off GOTOOLCHAIN=local
-tools/mkcoq.sh
-# -k: files of properties still under construction must not stop the build of the claimed ones;
-# every check re-builds (and verifies) exactly the targets it needs.
-timeout 3000 make -C coq -j16 -k >/dev/null 2>&1 || echo 'note: some Coq files did not build (see per-check proof stage)'
+# builds exactly what the claimed checks need (files of properties under construction are not touched)
+timeout 3000 python3 tools/coqbuild.py >/dev/null || echo 'note: Coq build incomplete (see per-check proof stage)'
 python3 - <<'PY'
 import os, sys
 sys.path.insert(0, "tools")
